@@ -35,6 +35,9 @@ func runC05(c *an.Ctx) {
 	ruleR4(c)
 	ruleR5(c)
 	ruleR6(c)
+	ruleR6b(c)
+	ruleR9(c)
+	ruleR3b(c)
 	ruleR7(c)
 	ruleR7Assume(c)
 }
@@ -786,9 +789,11 @@ func ruleR6(c *an.Ctx) {
 // under its condition; a restart that does not reset a job which can never finish leaves the
 // pipestance waiting forever.  In each of the three restart entry points, once its condition holds
 // on an edge, every path to the entry point's return passes Metadata.uncheckedReset:
-//   checkedReset:       state == Failed
-//   restartQueuedLocal: exists(queued_locally)
-//   restartLocal:       state == Queued;  Signal(0) on the recorded pid returned an error
+//
+//	checkedReset:       state == Failed
+//	restartQueuedLocal: exists(queued_locally)
+//	restartLocal:       state == Queued;  Signal(0) on the recorded pid returned an error
+//
 // (mustAfterEdge: conditions in predicate helpers are expanded, verdict-returning helpers followed).
 func ruleR7(c *an.Ctx) {
 	p := c.P
@@ -917,4 +922,140 @@ func noPidRecorded(p *an.Prog) func(an.Rel) bool {
 		isPid := func(v ssa.Value) bool { _, f := an.FieldLoad(an.Strip(v)); return f == pid }
 		return (isPid(r.X) && an.IsIntConst(r.Y, 0)) || (isPid(r.Y) && an.IsIntConst(r.X, 0))
 	}
+}
+
+// R6b: node states are derived after ALL metadata has been loaded.  Node.getState() looks at the
+// states of the node's prenodes, which are derived from their metadata caches.  When mrp re-attaches,
+// Pipestance.LoadMetadata fills those caches node by node (in alphabetical, not dependency, order);
+// a state computed inside that loop sees prenodes whose caches are still empty and comes out
+// Waiting instead of Running, so RestartRunningNodes / RestartLocalJobs - which select nodes by the
+// cached state - skip the node and its dead job is never reset (the restarted pipestance hangs).
+// Rule: LoadMetadata stores Node.state from getState() in a loop that is entered only after the
+// loop calling Node.loadMetadata has finished.
+func ruleR6b(c *an.Ctx) {
+	p := c.P
+	lm := c.NeedFunc(pkgCore, "(*Pipestance).LoadMetadata")
+	nodeLoad := c.NeedFunc(pkgCore, "(*Node).loadMetadata")
+	getState := c.NeedFunc(pkgCore, "(*Node).getState")
+	stateF := p.Field(pkgCore, "Node", "state")
+	if lm == nil || nodeLoad == nil || getState == nil || stateF == nil {
+		return
+	}
+	loops := naturalLoops(lm)
+	var loadHeads []*ssa.BasicBlock
+	loadBody := map[*ssa.BasicBlock]bool{}
+	for hd, body := range loops {
+		has := false
+		for b := range body {
+			for _, in := range b.Instrs {
+				if an.CalleeIs(in, nodeLoad) {
+					has = true
+				}
+				if g, ok := in.(*ssa.Go); ok && g.Call.StaticCallee() == nodeLoad {
+					has = true
+				}
+			}
+		}
+		if has {
+			loadHeads = append(loadHeads, hd)
+			for b := range body {
+				loadBody[b] = true
+			}
+		}
+	}
+	if len(loadHeads) == 0 {
+		c.Info("R6", "states-derived-after-all-metadata-loaded@(*Pipestance).LoadMetadata", lm.Pos(), "no loop calling Node.loadMetadata found: not decided")
+		return
+	}
+	after := false
+	for _, st := range an.StoresToField(lm, stateF) {
+		if st.Parent() != lm {
+			continue
+		}
+		cl, ok := an.Strip(st.Val).(*ssa.Call)
+		if !ok || cl.Call.StaticCallee() != getState {
+			continue
+		}
+		if loadBody[st.Block()] {
+			continue
+		}
+		for _, hd := range loadHeads {
+			if hd.Dominates(st.Block()) {
+				after = true
+			}
+		}
+	}
+	c.Check("R6", "states-derived-after-all-metadata-loaded@(*Pipestance).LoadMetadata", lm.Pos(), after,
+		"Pipestance.LoadMetadata has no pass that re-derives Node.state from getState() after the loop that loads every node's metadata: a state computed while later nodes' caches are still empty is Waiting instead of Running for a node whose upstream sorts after it, and the restart logic (which selects nodes by this cached state) never resets its dead job")
+}
+
+// R9: the metadata archive appears under its final name only when it is complete.  With --zip mrp
+// replaces a finished pipestance's metadata files by _metadata.zip; on re-attach the presence of
+// that file makes mrp unzip it first.  A zip archive is unreadable until its central directory is
+// written at the very end, so an archive streamed directly into its final name and interrupted
+// (SIGKILL while zipping) makes every later re-attach fail with "zip: not a valid zip file".
+// Rule: in util.CreateZip every path to a return that may carry a nil error passes an os.Rename
+// whose destination is the zip path parameter (write to a temporary name, rename when complete).
+func ruleR9(c *an.Ctx) {
+	fn := c.P.Func(pkgUtil, "CreateZip")
+	if fn == nil || len(fn.Params) == 0 {
+		c.Info("R9", "anchor(util.CreateZip)", 0, "not found: not decided")
+		return
+	}
+	dest := ssa.Value(fn.Params[0])
+	isRename := func(in ssa.Instruction) bool {
+		cl, ok := an.IsPkgFuncCall(in, "os", "Rename")
+		if !ok {
+			return false
+		}
+		a := cl.Common().Args[1]
+		return a == dest || an.Path(a) == an.Path(dest)
+	}
+	w := an.Query{Fn: fn, Barrier: isRename,
+		Target: func(in ssa.Instruction) bool {
+			ret, ok := in.(*ssa.Return)
+			if !ok || len(ret.Results) == 0 {
+				return false
+			}
+			v := an.RetVal(ret, 0)
+			if an.IsNil(v) {
+				return true
+			}
+			// `return err` under err != nil is a failing return
+			same := func(x ssa.Value) bool { return x == v || an.Path(x) == an.Path(v) } // a named result is re-loaded from its cell
+			g, _ := an.GuardedBy(ret, func(r an.Rel) bool {
+				return r.Op == token.NEQ && ((same(r.X) && an.IsNil(r.Y)) || (same(r.Y) && an.IsNil(r.X)))
+			})
+			if g {
+				return false
+			}
+			// the result of the final rename itself
+			if cl, ok := v.(*ssa.Call); ok && isRename(cl) {
+				return false
+			}
+			return true
+		}}.Find()
+	c.Check("R9", "archive-renamed-into-place-when-complete@CreateZip", fn.Pos(), w == nil,
+		"CreateZip can return success without having renamed a completed temporary file to the archive's final name: the archive is written in place, and a kill while it is being written leaves an invalid _metadata.zip that makes every re-attach fail; "+c.WitnessString(w))
+}
+
+// R3b: a full stage reset starts the new attempt under a new uniquifier.  Under FullStageReset
+// Node.reset wipes the stage directory and calls Fork.reset; uniquify() only mints a uniquifier when
+// the field is empty, and after a re-attach the field holds the failed attempt's value (read back
+// from the symlink).  If Fork.reset leaves it, the new split and join run in the old directory
+// under the old journal name and a late notification of the stale attempt is accepted as theirs.
+// Rule: Fork.reset (or a private helper) stores into Metadata.uniquifier.
+func ruleR3b(c *an.Ctx) {
+	p := c.P
+	fr := c.NeedFunc(pkgCore, "(*Fork).reset")
+	uniq := p.Field(pkgCore, "Metadata", "uniquifier")
+	if fr == nil || uniq == nil {
+		return
+	}
+	n := 0
+	for _, m := range familyOf(p, fr, 2) {
+		n += len(an.StoresToField(m, uniq))
+	}
+	c.Check("R3", "full-reset-renews-uniquifiers@(*Fork).reset", fr.Pos(), n > 0,
+		"Fork.reset, which re-creates the split and join metadata of a stage under full stage reset, never assigns Metadata.uniquifier: the new attempt keeps the directory and journal name of the failed one, and a late notification from the stale attempt (split_complete, join_complete) is taken for the new attempt's")
 }
